@@ -446,6 +446,9 @@ var InsideAtoms = []OutsideAtom{
 	{ID: "string_ops", Kind: "stmt", Code: "str2 := str + \"de\"\n\tbs2 := []byte(str2)\n\tx = x + uint64(len(str2)) + uint64(bs2[4])\n\tif string(bs2) == str2 {\n\t\tx += 1\n\t}"},
 	{ID: "encode", Kind: "stmt", Code: "eb := make([]byte, 12)\n\tmachine.UInt64Put(eb, x)\n\tmachine.UInt32Put(eb[8:], w)\n\tx = machine.UInt64Get(eb) + uint64(machine.UInt32Get(eb[8:]))"},
 	{ID: "nested_block_fresh", Kind: "stmt", Code: "{\n\t\tfresh1 := x + 1\n\t\tx = fresh1 * 2\n\t}"},
+	{ID: "nested_block_shadow", Kind: "stmt", Code: "{\n\t\ty := x + 5\n\t\tx = y + 1\n\t}\n\tx = x + y"},
+	{ID: "nested_block_shadow_var", Kind: "stmt", Code: "{\n\t\tvar y uint64 = x + 5\n\t\ty += 1\n\t\tx = y + 1\n\t}\n\tx = x + y"},
+	{ID: "nested_block_twice", Kind: "stmt", Code: "{\n\t\ty := x + 5\n\t\tx = y\n\t}\n\t{\n\t\ty := x * 2\n\t\tx = y\n\t}\n\tx = x + y"},
 	{ID: "lock", Kind: "stmt", Code: "mu := new(sync.Mutex)\n\tmu.Lock()\n\tx += 1\n\tmu.Unlock()"},
 	{ID: "named_map_absent_bool", Kind: "stmt", Code: "sn := make(Seen)\n\tif !sn[x] {\n\t\tx += 3\n\t}\n\tx += uint64(len(sn))"},
 	{ID: "named_map_absent_u64", Kind: "stmt", Code: "cn := make(Counts)\n\tx += cn[\"k\"] + 1"},
